@@ -97,6 +97,10 @@ def generate(seed: int, tier: str) -> dict:
             if docs[d].get("deref_probes") and rng.random() < 0.3:
                 probe = rng.choice(docs[d]["deref_probes"])
             events.append({"ev": "resolve", "d": d, "probe": probe})
+            if len(probe) >= 2 and "->" not in probe and rng.random() < 0.4:
+                # the same attribute through one dotted key (`src["m.t.u"]`): every level on the way contributes
+                # its scope exactly as in step-by-step access
+                events[-1]["dotted"] = True
         elif r < 0.68:
             tag += 1
             events.append({"ev": "assign", "d": d, "probe": rng.choice(docs[d]["probes"]), "value": (base + d) * 1000 + 900 + tag})
@@ -362,7 +366,7 @@ def execute(case: dict):
                     continue
                 try:
                     cur = src
-                    for seg in probe:
+                    for seg in ([".".join(probe)] if ev.get("dotted") else probe):
                         if seg == "->":
                             with StepBudget(STEP_BUDGET, prefix):
                                 cur = cur.value
